@@ -36,6 +36,7 @@ fresh code bit and unknown traits are unsatisfiable. Fourth round: C03.4 every
 call of Cell.add_app queues the instance with the allocation given (shared
 with C06.5).
 Fifth round: C03.3 a requested state is stored on every path of Node.set_state and the override of Server forwards every request unless the server already is in that state (shared with C08.6); C03.4 the re-validation pass is found through helpers spliced in at a condition.
+Sixth round: C03.3 every server that came up goes through reload_server and adjust_server_state (shared with C08.5).
 Does NOT decide that a granted expiry never exceeds the reboot time over
 clock advances.
 """
